@@ -1324,6 +1324,24 @@ def expression_pool() -> list[tuple[str, Any]]:
     a, b = sp.symbols("a b")
     out.append(("LegacyExpr|deprecated", LegacyExpr(a, b**2, name="legacy")))
     out.append(("LegacyExpr|deprecated_nested", LegacyExpr(a, plain_instance(d["decorated"][0]))))
+    # RESULTS of doit(): what perform_cached_doit writes to disk. A node built by a doit() that bypasses its class's constructor is not
+    # reproduced by pickle (pickle rebuilds through cls.__new__(*args), which may normalise: Integral folds a Piecewise integrand)
+    from ampform.dynamics.phasespace import EqualMassPhaseSpaceFactor, PhaseSpaceFactor
+    from ampform.sympy import PoolSum, UnevaluatableIntegral
+
+    x_, s_, m1_, m2_ = sp.symbols("x s m1 m2", nonnegative=True)
+    disp = s_ * UnevaluatableIntegral(EqualMassPhaseSpaceFactor(x_, m1_, m2_) / (x_ * (x_ - s_)), (x_, (m1_ + m2_) ** 2, sp.oo))
+    ctrl = s_ * UnevaluatableIntegral(PhaseSpaceFactor(x_, m1_, m2_) / (x_ * (x_ - s_)), (x_, (m1_ + m2_) ** 2, sp.oo))
+    out.append(("dispersion_integral[EqualMassPhaseSpaceFactor]|folded", disp))
+    out.append(("dispersion_integral[PhaseSpaceFactor]|folded", ctrl))
+    for label, x in list(out):
+        if label.endswith("|plain") or label.endswith("|folded") or label.endswith("|attrs"):
+            try:
+                y = x.doit()
+            except Exception:  # noqa: BLE001
+                continue
+            if isinstance(y, sp.Basic) and y != x:
+                out.append((label + ".doit_result", y))
     return out
 
 
